@@ -379,6 +379,12 @@ class Verdicts:
     def fail(self, c, i, msg):
         self.bad.append((c, i, msg))
 
+    def hit(self, key, c, i, msg, t):
+        """remember the most telling witness of a finding: a shipped zone file, an instant in 1970..2037"""
+        score = (0 if c.tag == "corpus" else 1, 0 if c.tag in ("tzfile", "corpus") else 1, 0 if 0 <= t < 2145916800 else 1)
+        if key not in self.known or score < self.known[key][3]:
+            self.known[key] = (c, i, msg, score)
+
     def note(self, k, n=1):
         self.info[k] = self.info.get(k, 0) + n
 
@@ -527,7 +533,7 @@ def oracle_R(c, oi, t, f, g, tb, kind, V):
         msg = ("fromLocalTime(toLocalTime(%d)) = %d (postTransition=false), %d (true); the instants with that local time are %s, "
                "so the answers must be %d and %d" % (t, pre, post, [x for (x, s) in cands], e_pre, e_post))
         if where:
-            V.known.setdefault(FINDING_KEYS[where], (c, oi, msg + " [ambiguity at the %s transition of the table]" % where))
+            V.hit(FINDING_KEYS[where], c, oi, msg + " [ambiguity at the %s transition of the table]" % where, t)
             V.note("finding-hit:" + where)
         else:
             V.fail(c, oi, msg)
@@ -562,7 +568,7 @@ def oracle_F(c, oi, w, f, tb, kind, V):
             " ".join(w[1:7]), post, got, exp, "skipped" if not cands else "existing")
         where = classify(tb, j) if j is not None else None
         if where:
-            V.known.setdefault(FINDING_KEYS[where], (c, oi, msg + " [at the %s transition of the table]" % where))
+            V.hit(FINDING_KEYS[where], c, oi, msg + " [at the %s transition of the table]" % where, L)
             V.note("finding-hit:" + where)
         else:
             V.fail(c, oi, msg)
@@ -813,7 +819,7 @@ def run(chk, replay=None):
         oracle_case(c, io.get(c.cid, []), v2, tables)
         return bool(v2.bad or v2.known)
 
-    for key, (c, oi, msg) in sorted(V.known.items()):
+    for key, (c, oi, msg, _score) in sorted(V.known.items()):
         small = single_op_case(c, oi)
         if not confirm(small):
             small = c
